@@ -842,6 +842,15 @@ func (s *shardController) SwapNode(from model.Server, to model.Server) error {
 
 func (s *shardController) swapNode(from model.Server, to model.Server, res chan error) {
 	s.shardMetadataMutex.Lock()
+	if !listContains(s.shardMetadata.Ensemble, from) || listContains(s.shardMetadata.Ensemble, to) {
+		// The swap was computed from an older view of the ensemble (e.g. an earlier swap
+		// of the same balancing round already changed it). Applying it would leave the
+		// shard with a duplicated server or with more members than the replication factor.
+		s.shardMetadataMutex.Unlock()
+		res <- errors.Errorf("swap %s -> %s does not apply to the current ensemble of shard %d",
+			from.GetIdentifier(), to.GetIdentifier(), s.shard)
+		return
+	}
 	s.shardMetadata.RemovedNodes = append(s.shardMetadata.RemovedNodes, from)
 	s.shardMetadata.Ensemble = replaceInList(s.shardMetadata.Ensemble, from, to)
 	s.shardMetadataMutex.Unlock()
